@@ -1149,6 +1149,9 @@ func (interp *Interpreter) cfg(root *node, sc *scope, importPath, pkgName string
 				err = n.cfgErrorf("invalid operation: cannot send to receive-only channel %s", n.child[0].typ.id())
 				break
 			}
+			if err = check.assignment(n.child[1], chanElement(n.child[0].typ), "send"); err != nil {
+				break
+			}
 			fallthrough
 
 		case declStmt, exprStmt:
